@@ -305,6 +305,11 @@ structure RawOpen where
   rid : Nat
   deriving DecidableEq, Repr, Inhabited
 
+/-- The AS number `parse_message` reports for an OPEN: the 2-octet My-AS field, replaced by the
+    4-octet-AS capability's value (0 when the capability is absent) only when My-AS is AS_TRANS. -/
+def effectiveAs (as2 : Nat) (cap4 : Option Nat) : Nat :=
+  if as2 = 23456 then (match cap4 with | some a => a | none => 0) else as2
+
 /-- `Ipv4Addr::is_unspecified || is_broadcast || is_multicast` on a u32. -/
 def badRouterId (rid : Nat) : Bool :=
   rid == 0 || rid == 4294967295 || (rid / 16777216 ≥ 224 && rid / 16777216 ≤ 239)
